@@ -660,8 +660,22 @@ def gen_terrain(rng, maxs):
     if kind == "rowrelief":
         oe = rng.choice([0, 1, 1, 0.5, 2])
     c = dict(kind=kind, dtype=dtype, a=a, vr=vr, vc=vc, oe=oe, te=rng.choice([0, 0, 2, 1, 0.5]))
-    c.update(gen_coords(rng))
+    # cell-size scale class: 2^k coordinate units per (unit) cell, k from -20 (~1e-6: arc-second lon / lat grids and finer)
+    # to +20 (~1e6).  The heights are scaled along, so the model is the same up to an exact power of two: same gradients,
+    # same verdicts, same vertical angles -- and everything stays dyadic for the exact seams.
+    k = rng.choice(SCALES)
+    if k != 0:
+        sc = 2.0 ** k
+        if not c["dtype"].startswith("float"):
+            c["dtype"] = rng.choice(["float64", "float64", "float32"])
+        c["a"] = [[x * sc for x in row] for row in a]
+        c["oe"], c["te"] = c["oe"] * sc, c["te"] * sc
+    c["scale"] = k
+    c.update(gen_coords(rng, 2.0 ** k))
     return c
+
+
+SCALES = [0, 0, 0, 0, -20, -12, -10, -10, 10, 20]
 
 
 DTYPES = ["float64", "float64", "float32", "int32", "int64", "int16", "uint8", "uint16", "int8"]
@@ -674,13 +688,13 @@ Y0S = [0.0, 5.0, 4100000.0, -7.5]
 OFFS = [0.0, 0.0, 0.0, 0.25, -0.25, 0.375, -0.4375]
 
 
-def gen_coords(rng):
+def gen_coords(rng, scale=1.0):
     """the coordinate arrays (ascending / descending, fractional steps, non-square cells, offsets), where the observer is
     given (at a centre, off-centre -- the nearest centre rule --, beyond the edge cell's centre: clamped to the raster's
     edge), and the `res` attribute (none / consistent with the coordinates / STALE: disagreeing with them, scalar or
     per-axis; what xarray leaves behind after a strided selection, a coarsen with keep_attrs, rescaled coordinates)"""
-    dx = rng.choice(STEPS) * rng.choice([1, 1, -1])
-    dy = rng.choice(STEPS) * rng.choice([1, -1, -1])
+    dx = rng.choice(STEPS) * rng.choice([1, 1, -1]) * scale
+    dy = rng.choice(STEPS) * rng.choice([1, -1, -1]) * scale
     if rng.random() < 0.4:
         dy = math.copysign(abs(dx), dy)                     # square cells
     c = dict(dx=dx, dy=dy, x0=rng.choice(X0S), y0=rng.choice(Y0S), off=0.0,
@@ -703,6 +717,8 @@ def gen_coords(rng):
         fx, fy = rng.choice([(2, 1), (1, 2), (0.5, 1), (2, 2), (1, 3), (4, 0.5), (3, 3)])
         if form == "scalar":
             val = rng.choice([abs(dx) * 2, abs(dy) * 3, 1.0 if (abs(dx), abs(dy)) != (1.0, 1.0) else 7.0, 1 if abs(dx) != 1.0 else 2])
+            if val in (abs(dx), abs(dy)) and abs(dx) == abs(dy):
+                val = abs(dx) * 2
         else:
             val = [abs(dx) * fx, abs(dy) * fy]
         c.update(res_kind="stale", res_form=form, res_val=val)
@@ -715,6 +731,7 @@ def coord_tags(c):
     return ["coords:y-" + ("descending" if c["dy"] < 0 else "ascending"), "coords:x-" + ("descending" if c["dx"] < 0 else "ascending"),
             "step:" + ("fractional" if frac else "integral"),
             "origin:" + ("large" if max(abs(c["x0"]), abs(c["y0"])) > 1000 else "small"),
+            "cell-size:2^" + str(c.get("scale", 0)),
             "observer-given:" + ("at-centre" if offx == 0 and offy == 0 else "off-centre"),
             "attrs:res-" + c.get("res_kind", "ok") + ("" if c.get("res_kind", "ok") == "none" else "-" + c.get("res_form", "tuple"))]
 
@@ -843,7 +860,8 @@ _GEO_CACHE = {}
 class GeoModel:
     """everything that does not depend on the elevations, for one (h, w, vr, vc, ew, ns)"""
 
-    def __init__(self, h, w, vr, vc, ew, ns):
+    def __init__(self, h, w, vr, vc, ew, ns, pairs=True):
+        """`pairs=False`: no n x n tables (large rasters; `visible_big` evaluates the pairs on the fly, compiled)"""
         from fractions import Fraction
         self.h, self.w, self.vr, self.vc, self.ew, self.ns = h, w, vr, vc, ew, ns
         cells = [(r_, c_) for r_ in range(h) for c_ in range(w) if (r_, c_) != (vr, vc)]
@@ -885,6 +903,9 @@ class GeoModel:
         self.dlo = np.arctan2(cx * ent[:, 1] - cy * ent[:, 0], cx * ent[:, 0] + cy * ent[:, 1])   # < 0
         self.dhi = np.arctan2(cx * ext[:, 1] - cy * ext[:, 0], cx * ext[:, 0] + cy * ext[:, 1])   # > 0
         assert (self.dlo < 0).all() and (self.dhi > 0).all()
+        self.cx, self.cy, self.ent, self.ext, self.kr, self.pairs = cx, cy, ent, ext, kr, pairs
+        if not pairs:
+            return
         # pair tables, [target, blocker]
         tx, ty = cx[:, None], cy[:, None]
         ce = ent[None, :, 0] * ty - ent[None, :, 1] * tx          # cross(enter_b, t)
@@ -923,6 +944,8 @@ class GeoModel:
         on a blocker whose span only touches the bearing)"""
         e0, e1, e2, g0, g1, g2 = self.nodes(a, velev)
         gt = np.arctan2(e1 + vt - velev, self.dist_c)
+        if not self.pairs:
+            return geo_visible_big(self, a, velev, vt), gt
         D = self.D
         with np.errstate(invalid="ignore", divide="ignore"):
             cg = np.where(D < 0, g1[None, :] + (g0 - g1)[None, :] * D / self.dlo[None, :],
@@ -936,14 +959,89 @@ class GeoModel:
         return out, gt
 
 
+_GEO_BIG = None
+
+
+def geo_big():
+    """numba-compiled `GeoModel.visible` without the n x n tables: every target against every other cell, the pair
+    quantities (exact integer cross products, the signed angle between the two centres) computed on the fly"""
+    global _GEO_BIG
+    if _GEO_BIG is not None:
+        return _GEO_BIG
+    import numba as nb
+    TOL = GEO_TOL
+
+    @nb.njit
+    def kernel(a, rows, cols, ent_nb, ext_nb, dist_e, dist_c, dist_x, dlo, dhi, cx, cy, ent, ext, kr, velev, vt, out):
+        n = rows.shape[0]
+        w = a.shape[1]
+        flat = a.ravel()
+        g0 = np.empty(n)
+        g1 = np.empty(n)
+        g2 = np.empty(n)
+        gt = np.empty(n)
+        for i in range(n):
+            own = flat[rows[i] * w + cols[i]]
+            e0 = own
+            if ent_nb[i, 0] >= 0:
+                e0 = (flat[ent_nb[i, 0]] + flat[ent_nb[i, 1]] + flat[ent_nb[i, 2]] + flat[ent_nb[i, 3]]) / 4.0
+            e2 = own
+            if ext_nb[i, 0] >= 0:
+                e2 = (flat[ext_nb[i, 0]] + flat[ext_nb[i, 1]] + flat[ext_nb[i, 2]] + flat[ext_nb[i, 3]]) / 4.0
+            g0[i] = np.arctan2(e0 - velev, dist_e[i])
+            g1[i] = np.arctan2(own - velev, dist_c[i])
+            g2[i] = np.arctan2(e2 - velev, dist_x[i])
+            gt[i] = np.arctan2(own + vt - velev, dist_c[i])
+        for t in range(n):
+            tx = cx[t]
+            ty = cy[t]
+            verdict = 1
+            for b in range(n):
+                if kr[b] >= kr[t]:
+                    continue
+                ce = ent[b, 0] * ty - ent[b, 1] * tx
+                cxx = tx * ext[b, 1] - ty * ext[b, 0]
+                if ce > 0 and cxx > 0:
+                    d = np.arctan2(float(cx[b] * ty - cy[b] * tx), float(cx[b] * tx + cy[b] * ty))
+                    if d < 0:
+                        cg = g1[b] + (g0[b] - g1[b]) * d / dlo[b]
+                    else:
+                        cg = g1[b] + (g2[b] - g1[b]) * d / dhi[b]
+                    if cg - gt[t] > TOL:
+                        verdict = 0
+                        break
+                    if cg - gt[t] >= -TOL:
+                        verdict = -1
+                elif ce == 0 and ent[b, 0] * tx + ent[b, 1] * ty > 0:
+                    if g0[b] - gt[t] > -TOL:
+                        verdict = -1
+                elif cxx == 0 and ext[b, 0] * tx + ext[b, 1] * ty > 0:
+                    if g2[b] - gt[t] > -TOL:
+                        verdict = -1
+            out[t] = verdict
+
+    _GEO_BIG = kernel
+    return kernel
+
+
+def geo_visible_big(g, a, velev, vt):
+    out = np.empty(g.n, dtype=np.int64)
+    geo_big()(np.ascontiguousarray(a, dtype=np.float64), g.rows, g.cols, g.ent_nb, g.ext_nb, g.dist_e, g.dist_c, g.dist_x,
+              g.dlo, g.dhi, g.cx.astype(np.int64), g.cy.astype(np.int64), g.ent, g.ext, g.kr, float(velev), float(vt), out)
+    return out
+
+
 def geo_model(h, w, vr, vc, ew, ns):
     k = (h, w, vr, vc, ew, ns)
     g = _GEO_CACHE.get(k)
     if g is None:
         if len(_GEO_CACHE) > 64:
             _GEO_CACHE.clear()
-        g = _GEO_CACHE[k] = GeoModel(*k)
+        g = _GEO_CACHE[k] = GeoModel(*k, pairs=h * w <= BIG)
     return g
+
+
+BIG = 900        # cells; above, the n x n pair tables are not built (`geo_visible_big` evaluates the pairs on the fly)
 
 
 def geo_reference(c):
@@ -1229,6 +1327,51 @@ def oracle_public(c, pub):
             if not (0.0 <= p <= 180.0):
                 return f"cell ({i},{j}) holds {p} outside [0,180]"
     return None
+
+
+def gen_long_thin(rng):
+    """a long thin raster (3..5 rows, 1200..1700 columns), flat but for a few low bumps 500..1400 cells from the observer,
+    who stands in a corner: there the bearings of distinct events (the centre of a far cell, a corner of a nearer one) come
+    within a microradian of each other without being equal, and the model is decided by their exact order.  The bumps
+    GRAZE: a bump `dr` rows off the observer's row has the height that puts its entering / exiting corner (a quarter of
+    it: the mean of the four cells meeting there) on the sight line to the cells `k` times as far whose bearing passes
+    closest to that corner -- so that the bump, and nothing else, decides whether those cells are seen."""
+    h, w = rng.choice([3, 4, 4, 5]), rng.randrange(1200, 1701)
+    west = rng.random() < 0.65
+    vr = rng.choice([0, h - 1])
+    vc = rng.randrange(0, 3) if west else w - 1 - rng.randrange(0, 3)
+    base = float(rng.choice([0, 0, 1]))
+    a = [[base] * w for _ in range(h)]
+    oe = rng.choice([1, 1, 2, 0.5])
+    for _ in range(rng.randrange(5, 9)):
+        dr = min(rng.choice([1, 1, 2, 2, 3, 4]), h - 1)
+        side = "enter" if (rng.random() < 0.15 and dr + 1 <= h - 1) else "exit"
+        k = dr / (dr - 0.5) if side == "exit" else (dr + 1) / (dr + 0.5)
+        d = int(rng.uniform(0.85, 0.99) * (w - 8) / k) - rng.randrange(0, 40)
+        row = vr + dr if vr == 0 else vr - dr
+        col = vc + d if west else vc - d
+        a[row][col] = base + 4.0 * oe * (1.0 - 1.0 / k)
+    c = dict(kind="long-thin", dtype=rng.choice(["float64", "float64", "float32"]), a=a, vr=vr, vc=vc, oe=oe,
+             te=0, scale=0)
+    c.update(gen_coords(rng))
+    return c
+
+
+def long_thin(r, n):
+    for s_ in range(n):
+        c = gen_long_thin(r.rng)
+        h, w = len(c["a"]), len(c["a"][0])
+        r.case(case_key(c), desc=dict(c, a=f"{h}x{w}, flat + far bumps") if s_ == 0 else None, nontrivial=True,
+               tags=["terrain:long-thin", "dtype:" + c["dtype"], "size:>700-long"] + coord_tags(c))
+        try:
+            pub, _ = public_viewshed(c)
+        except Exception as ex:
+            r.fail("raises", f"viewshed raised {type(ex).__name__}: {ex}", c)
+            continue
+        why = oracle_public(c, pub)
+        if why:
+            r.fail("visibility", why, c)
+        r.tag("long-thin:cells-judged-by-the-O(n^2)-reference", h * w - 1)
 
 
 def gen_wrapper_case(rng, maxs):
@@ -1843,7 +1986,9 @@ def run(r):
               "ascending or descending, dyadic steps 0.25..30, origins up to 4.1e6, observer given at a centre / off-centre (nearest "
               "centre) / clamped to the edge / (wrapper seam only) exactly half way and outside, attrs['res'] absent / consistent / "
               "STALE (scalar, tuple, list, ndarray; different factors per axis) -- the reference always uses the coordinate "
-              "spacing and the nearest centre; tree sequences: pools 6/12/40 of distinct "
+              "spacing and the nearest centre; cell-size scale classes 2^-20 .. 2^20 coordinate units per cell with the heights "
+              "scaled along; long thin rasters (3..5 x 1200..1700, flat + low bumps whose corners graze the sight lines to "
+              "far cells) judged by the compiled O(n^2) reference; tree sequences: pools 6/12/40 of distinct "
               "keys, gradients from alphabets of 2/3/5 values (ties) or dyadics, queries at bearings all nodes span; "
               "non-trivial = not a flat terrain / any tree sequence")
     r.trusted += ["xarray / pandas `sel(method='nearest')` (compared with the model's nearest-centre rule on every wrapper case, ties included)",
@@ -1864,6 +2009,7 @@ def run(r):
     if not quick:
         seam123(r, n_terr=20, maxs=30, tree_level_every=100)
     wrapper_seam(r, n=300 if quick else 3000, maxs=6 if quick else 9)
+    long_thin(r, n=12 if quick else 60)
     n = fast_search(r, 12 if quick else 300, 10 if quick else 16)
     r.tag("fast-reference-terrains", n)
     if not r.failures:
@@ -1881,6 +2027,26 @@ def search(r):
             if why:
                 r.fail("visibility", why, c)
                 return
+    # cheap and different in kind from the small-terrain searches: DataArray kinds (coordinates, attrs, cell-size scales)
+    # on small terrains, then long thin rasters with grazing bumps
+    for _ in range(200 if r.tier == "quick" else 2000):
+        c = gen_wrapper_case(r.rng, 6)
+        try:
+            why = oracle_public(c, public_viewshed(c)[0])
+        except Exception as ex:
+            why = f"viewshed raised {type(ex).__name__}: {ex}"
+        if why:
+            r.fail("visibility", why, c)
+            return
+    for _ in range(30 if r.tier == "quick" else 200):
+        c = gen_long_thin(r.rng)
+        try:
+            why = oracle_public(c, public_viewshed(c)[0])
+        except Exception as ex:
+            why = f"viewshed raised {type(ex).__name__}: {ex}"
+        if why:
+            r.fail("visibility", why, c)
+            return
     n = fast_geo_search(r, 40 if r.tier == "quick" else 400, 12 if r.tier == "quick" else 18, per=200)
     r.tag("search:fast-geometric-reference-terrains", n)
     if not r.failures:
